@@ -1687,7 +1687,10 @@ class PyCdlib:
                         else:
                             raise pycdlibexception.PyCdlibInternalError('Only expected two EFI sections')
                         num_seen_efi += 1
-                    elif enc.platform_id == 0:
+                    elif enc.platform_id == 0 and enc.entry is self.eltorito_boot_catalog.initial_entry:
+                        # The MBR loads the boot file of the Initial Entry
+                        # (the one add_isohybrid() checked), not that of a
+                        # further x86 section.
                         self.isohybrid_mbr.update_rba(current_extent)
 
                 current_extent = self._set_inode(enc.entry.inode, current_extent,
